@@ -217,7 +217,7 @@ func Open(h *Hist) (*Store, error) {
 }
 
 func (st *Store) open() error {
-	db, err := localstore.New(st.path, unhex(st.H.Base), &localstore.Options{Capacity: st.H.Cap}, logging.New(io.Discard, 0))
+	db, err := localstore.New(st.path, unhex(st.H.Base), &localstore.Options{Capacity: st.H.Cap, Driver: `leveldb:{"WriteBuffer":262144,"BlockCacheCapacity":262144}`}, logging.New(io.Discard, 0))
 	if err != nil {
 		return err
 	}
